@@ -29,9 +29,11 @@ def side_for(path, m, i, o):
 def reference(b, l, r, m, i, o, transients):
     """open merge (web tool strategy), then every conflicted decision resolved to the configured side"""
     from bounded import mergespace
-    from nbdime.merging.notebooks import decide_notebook_merge
+    from nbdime.merging import merge_notebooks
     from nbdime.merging.decisions import apply_decisions
-    dec = decide_notebook_merge(b, l, r, mergespace.args_for('mergetool', ignore_transients=transients))
+    # "first computing the merge with conflicts left open": the full open merge (which applies its decisions once), not only the
+    # decision step -- the decisions it returns are then resolved and applied again, exactly as a user of the result would do
+    _open, dec = merge_notebooks(copy.deepcopy(b), copy.deepcopy(l), copy.deepcopy(r), mergespace.args_for('mergetool', ignore_transients=transients))
     dec = copy.deepcopy(dec)
     for d in dec:
         if d.conflict:
